@@ -690,14 +690,18 @@ func compare(r *core.Run, p *prepared, res *nodeResult, st *stats) {
 	}
 }
 
-// topKeys returns the top-level keys of a rendered object "{k:v,...}" (nil if v is not one)
-func topKeys(v string) map[string]bool {
+// fields splits a rendered object "{k:v,...}" into its top-level fields (nil if v is not an object)
+func fields(v string) map[string]string {
 	if len(v) < 2 || v[0] != '{' || v[len(v)-1] != '}' {
 		return nil
 	}
-	keys := map[string]bool{}
-	depth, start := 0, 1
-	inKey := true
+	out := map[string]string{}
+	depth, start, colon := 0, 1, -1
+	flush := func(end int) {
+		if colon > 0 {
+			out[v[start:colon]] = v[colon+1 : end]
+		}
+	}
 	for i := 1; i < len(v)-1; i++ {
 		switch v[i] {
 		case '{':
@@ -705,32 +709,50 @@ func topKeys(v string) map[string]bool {
 		case '}':
 			depth--
 		case ':':
-			if depth == 0 && inKey {
-				keys[v[start:i]] = true
-				inKey = false
+			if depth == 0 && colon < 0 {
+				colon = i
 			}
 		case ',':
 			if depth == 0 {
-				start = i + 1
-				inKey = true
+				flush(i)
+				start, colon = i+1, -1
 			}
 		}
 	}
-	return keys
+	flush(len(v) - 1)
+	return out
 }
 
-// extraKeysOnly: both values are objects and the bundle's has all native keys and more
-func extraKeysOnly(nat, got string) bool {
-	a, b := topKeys(nat), topKeys(got)
-	if a == nil || b == nil || len(b) <= len(a) {
-		return false
+// extends: got has every field of nat with the same value, or, where both
+// values are objects, an extension of it; more reports an additional key
+func extends(nat, got string) (ok bool, more bool) {
+	if nat == got {
+		return true, false
 	}
-	for k := range a {
-		if !b[k] {
-			return false
+	a, b := fields(nat), fields(got)
+	if a == nil || b == nil {
+		return false, false
+	}
+	more = len(b) > len(a)
+	for k, av := range a {
+		bv, has := b[k]
+		if !has {
+			return false, false
 		}
+		o, m := extends(av, bv)
+		if !o {
+			return false, false
+		}
+		more = more || m
 	}
-	return true
+	return true, more
+}
+
+// extraKeysOnly: both values are objects and the bundle's differs from the
+// native one only by additional keys (at any nesting level)
+func extraKeysOnly(nat, got string) bool {
+	ok, more := extends(nat, got)
+	return ok && more
 }
 
 func firstDiffExtraKeys(nat, got [][2]string) bool {
